@@ -60,6 +60,15 @@ CHECKS = {
  "C17": dict(level="model_checking", design="§3 C17",
    technique="export/import differential on every state of an explicit-state BFS (byte-equal orbiter stores and identical probe behaviour on the re-initialised branch) plus bounded-exhaustive enumeration of a genesis document grammar and of all single-point JSON mutations of an exported genesis (validate => initialise => round-trips)",
    text="Every distinct state reachable by <=2 (thorough <=3) operations over pauses of protocols/cross-chains/actions, parameter changes, successful and refused transfers on all routes, imported near-maximal statistics and deposits is exported through the module's JSON entry point, validated, re-initialised on an emptied store and re-exported: export validates, InitGenesis does not panic, re-export is byte-equal, the orbiter store is byte-identical and 9 probe transfers give identical acks and final exports. ~3700 grammar documents (all lists of length <=3 of paused ids incl. repeats/invalid, <=2 of cross-chain ids incl. boundary and separator/NUL counterparties, amount x count entry lists incl. same key twice, zero/negative/max values, nil ids) and ~700 JSON mutations: validation accepts => InitGenesis succeeds and the resulting state round-trips."),
+ "C13": dict(level="model_checking", design="§3 C13",
+   technique="explicit-state BFS over statistics ledgers built through the real UpdateStats path (and real transfers); in every ledger the whole request space of the 6 dispatcher RPCs is enumerated through the app's gRPC query router and compared with the exported genesis",
+   text="Ledgers: every state reachable by <=2 (thorough <=3) updates over a 15-update menu with sources of all four protocols, prefix-related destination counterparties (1/10/100), two denoms and an update of an existing entry, plus growing prefixes of the whole menu and ledgers reached by real transfers. Requests per ledger: direct lookups for every key and 5 near-miss keys each; 4 listing RPCs x 7 protocol filters x {default page, offset pages for every offset 0..n+1 and limits 1,2,n+1, next-key walks with limits 1,2,3} x {forward, reverse} with count_total: listings must be exactly the matching set, duplicate-free, walks must visit each entry exactly once in opposite orders, totals correct."),
+ "C16": dict(level="exploration", design="§3 C16",
+   technique="bounded-exhaustive enumeration of denomination strings (all concatenations of up to 3/4 segments) x source port/channel pairs x amount spellings on the full application, differential against the coin ICS-20 itself credits for the identical packet to an ordinary account on a sibling branch; seam differential with witness search",
+   text="All '/'-joined concatenations of up to 3 (thorough 4: 22620) segments from a 12-segment menu x 4 (source port, channel) pairs x 2 destination channels x amount spellings (decimal, hex, octal-looking, underscore, signed, exponent, spaces, non-ASCII digits, 2^256) addressed to the orbiter with a valid payload: a success acknowledgement requires the token to be a one-hop voucher of the packet's source port/channel (rule written from the ICS-20 spec, independent of RecoverNativeDenom) and the forwarded coin and the statistics entry to equal the coin ICS-20 credits (observed on a sibling branch); where the adapter's coin and the credited coin disagree the check searches for an accepted witness by compensation."),
+ "C19": dict(level="model_checking", design="§3 C19",
+   technique="replay of an exhaustively enumerated history list on independent application instances in this process and in separate OS processes (the check re-executes its own binary); per-transition digests of ack bytes, ordered events and full-store hash plus final exports compared; differing histories are re-run 400x to classify the cause",
+   text="~22600 histories (all sequences up to depth 2 (thorough 3) over the 20-operation C12 alphabet and depth 2 over the C08 alphabet, every C14 mutated memo and packet-level input, the C01 probe packets on two states) are each replayed on 3 (thorough 8) independent instances, one (thorough four) of them in other OS processes with their own map-iteration seeds; every transition's acknowledgement bytes, ordered event list and full-store hash and the final orbiter and bank exports must be identical. Third-party event noise is calibrated on the orbiter-free stack and masked; acks and stores never are."),
 }
 
 NOT_YET = {}
